@@ -571,6 +571,9 @@ impl<'a, B: BitmapSlice> VolatileSlice<'a, B> {
             //   guest memory without violating rust's aliasing rules)
             // - size is always a multiple of alignment, so treating *mut T as *mut u8 is fine
             unsafe { copy_from_volatile_slice(buf.as_mut_ptr() as *mut u8, self, total) }
+        } else if size_of::<T>() == 0 {
+            // Zero-sized elements occupy no memory: there is nothing to copy.
+            buf.len()
         } else {
             let count = self.size / size_of::<T>();
             let source = self.get_array_ref::<T>(0, count).unwrap();
@@ -651,7 +654,7 @@ impl<'a, B: BitmapSlice> VolatileSlice<'a, B> {
             //   guest memory without violating rust's aliasing rules)
             // - size is always a multiple of alignment, so treating *mut T as *mut u8 is fine
             unsafe { copy_to_volatile_slice(self, buf.as_ptr() as *const u8, total) };
-        } else {
+        } else if size_of::<T>() != 0 {
             let count = self.size / size_of::<T>();
             // It's ok to use unwrap here because `count` was computed based on the current
             // length of `self`.
@@ -1213,9 +1216,10 @@ where
 
         let guard = self.ptr_guard();
         let mut ptr = guard.as_ptr() as *const Packed<T>;
-        let start = ptr;
+        // Counted here rather than derived from the pointers, which do not move for zero-sized `T`.
+        let count = buf.len().min(self.len());
 
-        for v in buf.iter_mut().take(self.len()) {
+        for v in buf.iter_mut().take(count) {
             // SAFETY: read_volatile is safe because the pointers are range-checked when
             // the slices are created, and they never escape the VolatileSlices.
             // ptr::add is safe because get_array_ref() validated that
@@ -1226,8 +1230,7 @@ where
             }
         }
 
-        // SAFETY: It is guaranteed that start and ptr point to the regions of the same slice.
-        unsafe { ptr.offset_from(start) as usize }
+        count
     }
 
     /// Copies as many bytes as possible from this slice to the provided `slice`.
